@@ -283,7 +283,7 @@ theorem insertKnot_matC (b : Basis K) (hv : b.Valid) (hper : b.periodic = -1) (x
     unfold C04.idxErr
     omega
   simp only []
-  rw [← hmu, if_neg (by omega), if_neg (by omega), if_neg hidx]
+  rw [← hmu, if_neg (by rw [hper]; omega), if_neg (by omega), if_neg hidx]
   unfold C04.repair
   rw [if_neg (by rw [hper]; decide)]
 
